@@ -35,7 +35,7 @@ CHECKS = {
         category="proof",
         text="Lean theorems over a model of Address (email_address's local-part/domain checks, the IP-literal and IDNA fallbacks, "
              "the split at the last '@'): rejoin, accepted_safe (no control character, no '@' in the domain, space/angle brackets only in a "
-             "quoted local part), new_then_parse / parse_then_new, display_parse, command_lines_single_crlf, argv_safe, envelope_nonempty; "
+             "quoted local part), new_then_parse / parse_then_new, display_parse, command_lines_single_crlf, argv_safe, envelope_nonempty, header_envelope_nonempty (the envelope derived from a header map has a recipient whatever the stored headers are - also when a recipient field is present with an empty list; the envhdrs cases exercise this on the real code); "
              "char::is_alphanumeric, domain_to_ascii and IpAddr parsing are hypotheses A1-A3, themselves checked on the real functions "
              "(A1 over all code points). Correspondence: exhaustive strings over a 12-symbol alphabet up to length 4/5, structured "
              "addresses around every length limit, Address::new, serde, Envelope, MAIL/RCPT lines and the real sendmail argv.",
@@ -60,8 +60,10 @@ CHECKS = {
         text="Lean theorems over the client model for every server script: send_outcomes (refused before writing / delivered with exactly the "
              "final reply / failed after a prefix and shut), ok_is_final_positive_reply, failed_send_shuts, error_carries_code_and_text; on the sequential "
              "transport model (Model/Transport.lean) send_raw_hands_over_at_most_once and successful_send_raw_hands_over_once: over all connections a "
-             "transport ever opened, one send_raw writes at most one DATA command (exactly one when it reports success) - no retry on another connection. "
-             "Correspondence: single faults exhaustively (every dialogue position x 6 fault kinds x 1..3 recipients) and random multi-fault "
+             "transport ever opened, one send_raw writes at most one DATA command (exactly one when it reports success) - no retry on another connection; "
+             "starttls_refusal_reported and auth_refusal_reported (connection set-up through a transport, Model/Tls.lean: a STARTTLS or an authentication that "
+             "the server refuses makes the send fail with exactly the error read from that reply, with no handshake, no continuation in clear and no MAIL). "
+             "Correspondence: STARTTLS refused 4xx / 5xx and AUTH answered 535 / 454 / garbage with the peer staying or closing, through both transports; single faults exhaustively (every dialogue position x 6 fault kinds x 1..3 recipients) and random multi-fault "
              "scripts against the real sync and tokio clients; the transcript acceptor recomputes each send's outcome from the server's own "
              "replies and compares it with what the client reported.",
         design_ref="DESIGN.md 5 C05",
@@ -317,7 +319,7 @@ CHECKS = {
         category="other",
         text="Partial by nature: panics, stack depth and running time are runtime facts. What is proved (Props/C19.lean) is about the models: "
              "every model function is total (Lean's termination checker, no partial definitions) and the modelled kernels produce output "
-             "linear in their input (crlf_at_most_doubles, relaxed_body_no_growth, relaxed_headers_no_growth, base64_length, base64_body_linear, xtext_at_most_triples, data_phase_linear). What is checked "
+             "linear in their input (crlf_at_most_doubles, relaxed_body_no_growth, relaxed_headers_no_growth, base64_length, base64_body_linear, xtext_at_most_triples, envelope_json_linear, mime_version_short, data_phase_linear). What is checked "
              "on the code: 29 public entry points (FromStr / parse / new / builder / encode / sign / serde / URL) on boundary characters at "
              "every position of valid templates, structure-aware mutations, byte soup and 64 KiB repetitions, in threads with 2 MiB stacks "
              "under catch_unwind, in the optimised build and (one worker process per case) in the opt-level 0 build; wall time of sizes "
